@@ -135,6 +135,9 @@ func TestC02_Table(t *testing.T) {
 	// leading zero bytes k = 0..size for every size and language, all-ones, through both generators
 	for _, size := range ref.Sizes {
 		for _, l := range allLangs() {
+			if !mine(int(l)) {
+				continue
+			}
 			for k := 0; k <= size; k++ {
 				e := bytes.Repeat([]byte{0xa7}, size)
 				for i := 0; i < k; i++ {
@@ -183,7 +186,7 @@ func TestC02_Random(t *testing.T) {
 			idx := gen.ValidIndices().Draw(rt, "indices")
 			c = &roundCase{Lang: l.Name(), Source: src, Indices: idx}
 			if l == ref.Japanese && rapid.Bool().Draw(rt, "ideographic-space") {
-				c.Sep = "　"
+				c.Sep = "\u3000"
 			}
 		default:
 			e := gen.Entropy().Draw(rt, "ent")
